@@ -369,6 +369,31 @@ func (s *sim) dup(idx int) { s.pool = append(s.pool, s.pool[idx]) }
 func (s *sim) advanceClock(d time.Duration) {
 	rt.CurWorld().Advance(int64(d))
 	time.Sleep(2 * time.Millisecond) // the handlers' goroutines are free-running: let them react
+	// a handler may also hand a proposal to the node on its own timer (serveChannels proposes whatever
+	// arrives on proposeC, whenever it arrives)
+	reproposed := false
+	deadlineP := time.Now().Add(300 * time.Millisecond)
+	for {
+		got := false
+		for _, n := range s.nodes {
+			if !n.alive {
+				continue
+			}
+			select {
+			case p := <-n.proposeC:
+				n.vn.RN.Propose(p.ToBytes())
+				s.log("node %d: proposal %s handed over on a timer", n.id, p.ID)
+				got, reproposed = true, true
+			default:
+			}
+		}
+		if !got && (reproposed || time.Now().After(deadlineP)) {
+			break
+		}
+		if !got {
+			time.Sleep(500 * time.Microsecond)
+		}
+	}
 	for _, c := range s.clients {
 		if c.pending == 0 || c.dead || len(c.ops) == 0 {
 			continue
